@@ -63,13 +63,20 @@ func main() {
 		Host:   backendHost,
 	})
 	passthroughBackend.FlushInterval = -1
+	// Passed-through exchanges are not re-encoded: by default the transport would ask the
+	// backend for gzip when the client did not, and then decompress the answer.
 	if *forceHTTP2 {
 		passthroughBackend.Transport = &http2.Transport{
-			AllowHTTP: true,
+			AllowHTTP:          true,
+			DisableCompression: true,
 			DialTLSContext: func(ctx context.Context, network string, addr string, cfg *tls.Config) (net.Conn, error) {
 				return net.Dial(network, addr)
 			},
 		}
+	} else {
+		transport := http.DefaultTransport.(*http.Transport).Clone()
+		transport.DisableCompression = true
+		passthroughBackend.Transport = transport
 	}
 
 	handler := connection.Handler(*backendPort, passthroughBackend)
